@@ -42,6 +42,7 @@ type scen struct {
 	Writing  int    `json:"writing"`  // accepted connections with a backed-up write (peer does not read)
 	Timers   int    `json:"timers"`   // accepted connections with pending deadlines
 	Sendfile int    `json:"sendfile"` // core: accepted connections with a queued Sendfile (peer does not read)
+	WFail    int    `json:"wfail"`    // core: accepted connections on which a Write failed (peer reset) before Stop
 	DialTO   int    `json:"dialto"`   // core: dials that hit their timeout before Stop
 	Dials    int    `json:"dials"`    // core: DialAsync connections established before Stop
 	PendDial int    `json:"penddial"` // core: dials still in progress (black hole) at Stop
@@ -199,6 +200,9 @@ func runScen(s scen, emit bool) bool {
 	baseG, baseF := runtime.NumGoroutine(), countFds()
 	ev(hlib.Ev{"ev": "reset", "id": s.ID, "kind": s.Kind, "mode": s.Mode, "race": s.Race, "stopper": s.Stopper, "core": s.Kind == "core"})
 	ev(hlib.Ev{"ev": "base", "goroutines": baseG, "fds": baseF})
+	if emit {
+		tr.Sync()
+	}
 
 	var opens, closes int32
 	var gates []*gate
@@ -245,6 +249,13 @@ func runScen(s scen, emit bool) bool {
 			case "T":
 				c.SetReadDeadline(time.Now().Add(time.Hour))
 				c.SetWriteDeadline(time.Now().Add(time.Hour))
+			case "R": // the peer resets while the application keeps writing: one of the writes fails
+				for k := 0; k < 300; k++ {
+					if _, err := c.Write(make([]byte, 64<<10)); err != nil {
+						break
+					}
+					time.Sleep(500 * time.Microsecond)
+				}
 			case "F": // a file much bigger than the socket buffers: the rest is queued as a file entry
 				if f, err := os.Open(bigFile); err == nil {
 					c.Sendfile(f, 0)
@@ -355,6 +366,18 @@ func runScen(s scen, emit bool) bool {
 	for i := 0; i < s.Sendfile && !isHTTP && bigFile != ""; i++ {
 		cl := dial("sendfile")
 		cl.c.Write([]byte("F"))
+	}
+	for i := 0; i < s.WFail && !isHTTP; i++ {
+		cl := dial("wfail")
+		cl.c.Write([]byte("R"))
+		if tc, ok := cl.c.(*net.TCPConn); ok {
+			tc.SetLinger(0)
+		}
+		time.Sleep(2 * time.Millisecond)
+		cl.c.Close() // RST
+	}
+	if s.WFail > 0 && !isHTTP {
+		time.Sleep(100 * time.Millisecond) // the failed write and the close handling happen before Stop
 	}
 	for i := 0; i < s.Transfer; i++ {
 		cl := dial("transfer")
